@@ -1,4 +1,5 @@
 """C04: join family, nest/unnest and rank obey their relational definitions."""
+import concurrent.futures
 import itertools
 import random
 from common import *
@@ -6,7 +7,7 @@ import expr as X
 import evalcheck
 
 PROP = "C04"
-PROP_FILES = ["Properties/C04.v", "Check/EvalCheck.v"]
+PROP_FILES = ["Properties/C04.v", "Check/EvalCheck.v", "Check/C04Check.v"]
 N = X.num
 JOINS = ["<&>", "<->", "-&-", "---", "-&>", "<&-", "-->", "<--"]
 ALPHA = ["a", "b", "c", "@", "@item", "@char", "x"]
@@ -161,11 +162,264 @@ def gen_cases(rng, tier):
     return [{"id": i, "label": l, "ast": e} for i, (l, e) in enumerate(out)]
 
 
+# ---------- the positional join engine against its transcription (Rep/RelJoin.v) ----------
+
+def stored(order, names, rows):
+    """a relation over `names` with the given rows whose *stored* heading is `order`: a chain of <&> over one-column
+    literals fixes the stored column order (each join appends the right operand's columns), `<&-` against the
+    literal keeps that heading and selects the rows"""
+    cols = {n: [] for n in names}
+    for r in rows:
+        for n, v in zip(names, r):
+            if v not in cols[n]:
+                cols[n].append(v)
+    e = X.rel([order[0]], [[v] for v in cols[order[0]]])
+    for n in order[1:]:
+        e = X.join("<&>", e, X.rel([n], [[v] for v in cols[n]]))
+    return X.join("<&-", e, X.rel(names, rows))
+
+
+def reljoin_core():
+    out = []
+    L = [[N(1), N(2), N(3)], [N(1), N(5), N(3)], [N(2), N(2), N(3)], [N(4), N(4), N(4)]]
+    rights = [
+        ("a", X.rel(["a"], [[N(1)], [N(9)]])),
+        ("ba", stored(["b", "a"], ["a", "b"], [[N(1), N(2)], [N(2), N(2)], [N(7), N(7)]])),
+        ("ab", X.rel(["a", "b"], [[N(1), N(2)], [N(2), N(2)], [N(7), N(7)]])),
+        ("cd", X.rel(["c", "d"], [[N(3), N(0)], [N(3), N(1)], [N(8), N(0)]])),
+        ("d", X.rel(["d"], [[N(0)], [N(1)]])),
+        ("cab", stored(["c", "a", "b"], ["a", "b", "c"], [[N(1), N(2), N(3)], [N(2), N(2), N(3)], [N(0), N(0), N(0)]])),
+        ("dcba", stored(["d", "c", "b", "a"], ["a", "b", "c", "d"], [[N(1), N(2), N(3), N(0)], [N(1), N(5), N(3), N(1)], [N(9), N(9), N(9), N(9)]])),
+        ("bd", stored(["d", "b"], ["b", "d"], [[N(2), N(0)], [N(2), N(1)], [N(6), N(0)]])),
+    ]
+    for perm in itertools.permutations(["a", "b", "c"]):
+        left = stored(list(perm), ["a", "b", "c"], L)
+        for rn, right in rights:
+            for op in JOINS:
+                out.append(("core %s x %s" % ("".join(perm), rn), op, left, right))
+                out.append(("core %s x %s" % (rn, "".join(perm)), op, right, left))
+    # results whose heading is (@, @item | @char | @byte | @value) in either stored order, and near misses
+    for k, v in (("@item", 5), ("@char", 97), ("@byte", 65), ("@value", 5), ("x", 5)):
+        at1 = X.rel(["@"], [[N(0)], [N(1)]])
+        k1 = X.rel([k], [[N(v)], [N(v + 1)]] if k == "x" else [[N(v)]])
+        atj = X.rel(["@", "j"], [[N(0), N(1)], [N(1), N(1)], [N(2), N(3)]])
+        kj = X.rel(["j", k], [[N(1), N(v)], [N(3), N(v + 1)], [N(4), N(v)]])
+        for op in ("<&>", "<->"):
+            for a, b in ((at1, k1), (k1, at1), (atj, kj), (kj, atj)):
+                out.append(("sugar core %s" % k, op, a, b))
+        out.append(("sugar core3 %s" % k, "<&>", atj, kj))
+        out.append(("sugar core3 %s" % k, "-&>", atj, stored([k, "@"], ["@", k], [[N(0), N(v)], [N(2), N(v)]])))
+        out.append(("sugar core3 %s" % k, "<&-", stored([k, "@"], ["@", k], [[N(0), N(v)], [N(2), N(v)]]), atj))
+    return out
+
+
+def generic_core():
+    """the generic engine: arrays, strings, dicts, byte arrays, offset / sparse arrays and Relations with an @ column against each
+    other and against plain Relations, under every operator"""
+    ops = [X.arr([N(5), N(6)]), X.arr([N(5), None, N(7)]), X.arr([N(1)], 2), X.string("ab"), X.dict_([(N(0), N(5)), (N(3), N(6))]),
+           X.bytes_([65, 66]), X.rel(["@", "x"], [[N(0), N(5)], [N(1), N(9)]]), X.rel(["x"], [[N(5)], [N(6)]]),
+           X.rel(["@item", "y"], [[N(5), N(1)], [N(7), N(2)]]), X.rel(["@"], [[N(0)], [N(3)]])]
+    out = []
+    for i, a in enumerate(ops):
+        for j, b in enumerate(ops):
+            if i >= 6 and j >= 6:
+                continue          # Relation x Relation: the positional engine
+            for op in JOINS:
+                out.append(("generic core", op, a, b))
+    return out
+
+
+def reljoin_random(rng, n):
+    out = []
+    AL = ["a", "b", "c", "d", "@", "@item", "x"]
+
+    def cell(nme):
+        r = rng.random()
+        if nme == "@":
+            return N(rng.randrange(3))
+        if r < 0.8:
+            return N(rng.randrange(3))
+        return rng.choice([X.set_([N(1)]), X.tup([("k", N(rng.randrange(2)))]), X.string("ab"), N(0.5), X.set_([])])
+
+    def operand(names, like=None):
+        """rows over names; when `like` (rows of the other operand, as dicts) is given most rows copy its values on the
+        shared attributes, so that the operands really join"""
+        names = sorted(names)
+        rows = []
+        for _ in range(rng.randrange(1, 5)):
+            src = rng.choice(like) if like and rng.random() < 0.75 else {}
+            rows.append([src[nm] if nm in src else cell(nm) for nm in names])
+        dicts = [dict(zip(names, r)) for r in rows]
+        r = rng.random()
+        if r < 0.25 or len(names) == 0:
+            return X.rel(names, rows), dicts
+        order = list(names)
+        rng.shuffle(order)
+        return stored(order, names, rows), dicts
+
+    for _ in range(n):
+        ln = rng.sample(AL, rng.randrange(1, 5))
+        r = rng.random()
+        if r < 0.25:
+            rn = rng.sample(ln, rng.randrange(1, len(ln) + 1))                      # right inside left
+        elif r < 0.4:
+            rn = list(set(ln + rng.sample(AL, rng.randrange(1, 3))))                 # left inside right
+        elif r < 0.5:
+            rn = list(ln)                                                            # same heading
+        else:
+            rn = rng.sample(AL, rng.randrange(1, 5))
+        a, da = operand(ln)
+        b, _ = operand(rn, like=da)
+        if rng.random() < 0.2:      # an operand that is itself the result of another operator
+            a = X.join(rng.choice(["<->", "<&>", "-->", "<--", "-&-"]), a, operand(rng.sample(AL, rng.randrange(1, 4)), like=da)[0])
+        out.append(("random", rng.choice(JOINS), a, b))
+    return out
+
+
+def rel_term(o):
+    rows = []
+    for r in o["rows"]:
+        cells = [val_term(c) for c in r]
+        if any(c is None for c in cells):
+            return None
+        rows.append("[" + "; ".join(cells) + "]")
+    return "{| r_attrs := [%s]; r_p := [%s]%%nat; r_rows := [%s] |}" % (
+        "; ".join(name_term(a) for a in o["attrs"]), "; ".join(str(i) for i in o["p"]), "; ".join(rows))
+
+
+RJ_TEXT = {2: "an operand breaks the representation invariant assumed by C04_positional_join_refines_spec (distinct names, projector a permutation, rows of the heading's width, no duplicate row, not empty)",
+           3: "the transcription of Relation.Join (Rep/RelJoin.v) panics where the implementation answers",
+           4: "the transcription's result differs from the implementation's",
+           5: "the result's representation class (EmptySet / TrueSet / Relation / other) differs from the transcription's",
+           6: "the stored heading or projector of the resulting Relation differs from the transcription's",
+           7: "Count() of the result differs from the transcription's number of rows"}
+MODE_NAMES = {0: "--- JoinIfCommonExist", 1: "joinOneSide(left) 1", 3: "joinOneSide(left) 3", 4: "joinOneSide(right) 4", 6: "joinOneSide(right) 6",
+              2: "JoinCommonOnly", 5: "JoinKeepEverything 5", 7: "JoinKeepEverything 7", 9: "panic"}
+
+
+def run_reljoin(run, vh, items, id0=0):
+    """items: (label, op, a_ast | a_src, b_ast | b_src)"""
+    reqs = []
+    for i, (label, op, a, b) in enumerate(items):
+        reqs.append({"id": id0 + i, "label": label, "op": op, "a": a if isinstance(a, str) else X.src(a), "b": b if isinstance(b, str) else X.src(b)})
+    outs, rc, err = run_harness(vh, "reljoin", reqs)
+    cases, skipped, hist, gcases, ghist = [], {}, {}, [], {}
+    for q in reqs:
+        o = outs.get(q["id"]) or {"st": "missing"}
+        rec = {"case": {"label": q["label"], "reljoin": {"a": q["a"], "b": q["b"], "op": q["op"]}, "src": "(%s) %s (%s)" % (q["a"], q["op"], q["b"])}, "observed": o}
+        st = o.get("st")
+        if st == "skip":
+            skipped[o.get("why", "?")[:60]] = skipped.get(o.get("why", "?")[:60], 0) + 1
+            continue
+        if o.get("generic"):
+            # the generic engine: operands by their members; an error is an observable (not a relation)
+            if st not in ("ok", "err"):
+                rec["oracle"] = "a join is specified (Properties/C04.v) but the implementation does not answer (%s)" % st
+                run.classify_failure("sugar-tuple-ill-typed" if o.get("site") == "rel:NewTuple" else None, rec)
+                continue
+            ga, gb = val_term(o["ga"]), val_term(o["gb"])
+            gv = "None" if st == "err" else (val_term(o["res"]["val"]) if evalcheck.counts_ok(o["res"]["val"]) else None)
+            if ga is None or gb is None or gv is None:
+                skipped["value outside the model"] = skipped.get("value outside the model", 0) + 1
+                continue
+            gcases.append((q, rec, "{| g_id := %d; g_op := %s; g_a := %s; g_b := %s; g_obs := %s |}" % (
+                q["id"], X.JOINOPS[q["op"]], ga, gb, gv if gv == "None" else "(Some %s)" % gv)))
+            ghist[o["generic"]] = ghist.get(o["generic"], 0) + 1
+            continue
+        if st != "ok":
+            rec["oracle"] = "a join of two relations is specified (Properties/C04.v) but the implementation does not answer (%s)" % st
+            run.classify_failure(None, rec)
+            continue
+        ta, tb = (None if o["a"].get("bad") else rel_term(o["a"])), (None if o["b"].get("bad") else rel_term(o["b"]))
+        res = o["res"]
+        tv = val_term(res["val"]) if evalcheck.counts_ok(res["val"]) else None
+        if o["a"].get("bad") or o["b"].get("bad") or res.get("bad"):
+            run.corr_breaks.append({"what": "the stored layout of a Relation could not be read (harness/c04.go): %s" % (o["a"].get("bad") or o["b"].get("bad") or res.get("bad")), **rec})
+            continue
+        if ta is None or tb is None or tv is None:
+            skipped["value outside the model"] = skipped.get("value outside the model", 0) + 1
+            continue
+        cases.append((q, rec, "{| j_id := %d; j_op := %s; j_a := %s; j_b := %s; j_cls := %d%%nat; j_attrs := [%s]; j_p := [%s]%%nat; j_count := %d%%nat; j_val := %s |}" % (
+            q["id"], X.JOINOPS[q["op"]], ta, tb, res["cls"], "; ".join(name_term(a) for a in res.get("attrs", [])),
+            "; ".join(str(i) for i in res.get("p", [])), res["val"].get("c", 0), tv)))
+        key = "%s -> %s" % ("sorted" if o["a"]["attrs"] == sorted(o["a"]["attrs"]) and o["b"]["attrs"] == sorted(o["b"]["attrs"]) else "unsorted stored heading", res["type"])
+        hist[key] = hist.get(key, 0) + 1
+    chunks = [cases[i:i + 300] for i in range(0, len(cases), 300)]
+    modes, agreed = {}, 0
+
+    def do(ic):
+        k, chunk = ic
+        body = ["From Arrai Require Import Base.Val Spec.SetAlg Eval.Interp Rep.RelJoin Check.C04Check.",
+                "Definition cases : list jcase := [", ";\n".join("  " + c[2] for c in chunk),
+                "].\nDefinition R := Eval vm_compute in report04 cases.\nPrint R.\nDefinition M := Eval vm_compute in modes04 cases.\nPrint M."]
+        rc2, so, se = coq_eval("c04_rj_%d_%d" % (os.getpid(), k), "\n".join(body))
+        return coq_report(so, "R"), coq_report(so, "M"), se
+
+    with concurrent.futures.ThreadPoolExecutor(max_workers=8) as ex:
+        for (rep, md, se), chunk in zip(ex.map(do, enumerate(chunks)), chunks):
+            if rep is None or md is None:
+                run.corr_breaks.append({"what": "the transcription of the join engine could not be evaluated (Check/C04Check.v)", "log": se[-1500:]})
+                continue
+            byid = {c[0]["id"]: c for c in chunk}
+            for cid, m in md:
+                modes[MODE_NAMES.get(m, str(m))] = modes.get(MODE_NAMES.get(m, str(m)), 0) + 1
+            agreed += len(chunk) - len(rep)
+            for cid, code in rep:
+                q, rec, _ = byid[cid]
+                if code >= 100:
+                    rec["oracle"] = "join result holding two items at one index of a sequence (code %d)" % (code - 100)
+                    run.classify_failure("seq-collision", rec)
+                elif code == 1:
+                    rec["oracle"] = "the result of the join is not the set of combinations of agreeing rows of the operands as stored (join_data on abs A, abs B; Properties/C04.v)"
+                    run.classify_failure(None, rec)
+                else:
+                    run.corr_breaks.append({"what": "C04_positional_join_refines_spec no longer describes the implementation: " + RJ_TEXT.get(code, str(code)), **rec})
+    gagreed = 0
+
+    def dog(ic):
+        k, chunk = ic
+        body = ["From Arrai Require Import Base.Val Spec.SetAlg Eval.Interp Rep.RelJoin Rep.GenJoin Check.C04Check.",
+                "Definition cases : list gcase := [", ";\n".join("  " + c[2] for c in chunk),
+                "].\nDefinition R := Eval vm_compute in reportG cases.\nPrint R."]
+        rc2, so, se = coq_eval("c04_gj_%d_%d" % (os.getpid(), k), "\n".join(body))
+        return coq_report(so, "R"), se
+
+    gchunks = [gcases[i:i + 300] for i in range(0, len(gcases), 300)]
+    with concurrent.futures.ThreadPoolExecutor(max_workers=8) as ex:
+        for (rep, se), chunk in zip(ex.map(dog, enumerate(gchunks)), gchunks):
+            if rep is None:
+                run.corr_breaks.append({"what": "the transcription of GenericJoin could not be evaluated (Check/C04Check.v)", "log": se[-1500:]})
+                continue
+            byid = {c[0]["id"]: c for c in chunk}
+            gagreed += len(chunk) - len(rep)
+            for cid, code in rep:
+                q, rec, _ = byid[cid]
+                if code >= 100:
+                    rec["oracle"] = "generic join over a sequence holding two items at one index (code %d)" % (code - 100)
+                    run.classify_failure("seq-collision", rec)
+                elif code == 1:
+                    rec["oracle"] = "the result of the join (generic engine) is not the set of combinations of agreeing members of the operands (join_data; Properties/C04.v)"
+                    run.classify_failure(None, rec)
+                else:
+                    run.corr_breaks.append({"what": "C04_generic_join_is_the_specification_join no longer describes the implementation: " + {3: "the transcription of GenericJoin (Rep/GenJoin.v) hands a nil tuple to the set builder", 4: "the transcription's result differs from the implementation's"}.get(code, str(code)), **rec})
+    return {"generic_compared": len(gcases), "generic_agreed": gagreed, "generic_operand_histogram": ghist,
+            "reljoin_cases": len(items), "reljoin_compared": len(cases), "reljoin_agreed": agreed, "reljoin_skipped": skipped,
+            "reljoin_strategy_histogram": modes, "reljoin_layout_histogram": hist}
+
+
 def main(tier, seed, replay=None):
     run = Run(PROP, tier, seed)
     vh, proof = prepare(PROP_FILES, thorough=(tier == "thorough"))
     rng = random.Random(seed)
-    cases = evalcheck.replay_cases(replay) if replay else gen_cases(rng, tier)
+    rj_items = None
+    if replay:
+        rc0 = (json.load(open(replay)).get("case") or {}).get("reljoin")
+        if rc0:
+            rj_items = [("replay", rc0["op"], rc0["a"], rc0["b"])]
+    cases = ([] if rj_items else evalcheck.replay_cases(replay)) if replay else gen_cases(rng, tier)
+    if not replay:
+        rj_items = reljoin_core() + generic_core() + reljoin_random(random.Random(seed * 7919 + 4), 300 if tier == "quick" else 4000)
+    rj_cov = run_reljoin(run, vh, rj_items) if rj_items else {}
     outs, codes, fails = evalcheck.evaluate(vh, cases)
     evalcheck.judge(run, cases, outs, codes, fails,
                     "join / nest / rank result vs the set-comprehension definition (Properties/C04.v, Eval/Interp.v)",
@@ -177,5 +431,7 @@ def main(tier, seed, replay=None):
                     "pairs of relations over the attribute alphabet {a,b,c,x,@,@item,@char} (0-3 attributes a side, any overlap, 1-3 rows over 3 atoms) in the forms relation literal / set of tuples / tuples with shuffled attribute order / computed by => / join-built (stored heading not sorted) / arrays, strings and dicts used as binary relations, x the eight join operators, incl. joins of join results; an enumerated core (a relation over a, b, c stored in each of the six column orders x a wide literal x 8 operators x both operand orders); wide (3-5 columns over a..e) against narrow relations with three or more common columns, either side a chain of joins with any stored column order; nest |..|n, nest ~|..|n, single-attribute nest (relations of one to three attributes, nesting some or all of them); rank with one or two keys; join-built relations inside =, &, &~, |, <:, sets and dicts of more than 8 members"
                     + ("; thorough adds every heading partition (left-only x common x right-only, both stored orders) x 8 operators" if tier == "thorough" else ""),
                     {"operator_histogram": ops, "exhaustive": False})
+    run.cov.update(rj_cov)
+    run.cov["rule"] += "; positional engine stream: pairs of Relations (stored heading in any column order, obtained by chains of joins; heading pairs disjoint / overlapping / nested / equal; @-names incl. the re-sugared (@, @item|@char|@byte|@value) results) x 8 operators, the transcription Rep/RelJoin.v run in Coq on the stored layout read off the operands (AttrsName(), projector, rows) and compared with the implementation's result on denotation, Count(), representation class and stored heading; generic engine stream: arrays (dense, sparse, offset), strings, dicts, byte arrays and Relations with an @ column against each other and against plain Relations x 8 operators, the transcription Rep/GenJoin.v run in Coq on the members of both operands and compared with the implementation's value or error"
     run.assumptions = ["rank keys are numbers (other keys are ordered by the Go order, see C06)"]
     return run.finish(proof)
